@@ -3,7 +3,7 @@
 From Coq Require Import List String Bool ZArith.
 Local Open Scope Z_scope.
 From Coq Require Import Sorting.Sorted.
-From Spec Require Import Base.Json Codec.Types Codec.Gen_Tables Codec.Codec Codec.CodecFacts Codec.PayloadFacts.
+From Spec Require Import Base.Json Codec.Types Codec.Gen_Tables Codec.Codec Codec.CodecFacts Codec.PayloadFacts Codec.TypedFacts.
 Import ListNotations.
 Local Open Scope string_scope.
 
@@ -73,4 +73,19 @@ Proof.
       * repeat constructor.
       * intros k v [H1|[H1|[]]]; inversion H1; subst; constructor.
     + constructor; [constructor|intros k v []].
+Qed.
+
+(* ---------- proved for every input: the scalar, slice and map field types (Codec/TypedFacts.v) ---------- *)
+(* a value in normal form for its field type - a string, a boolean, a number, an integer literal in range, a non-null payload
+   in normal form, a single type name or a list of at least two, a list of such values, a name-sorted map of such values -
+   comes back exactly as it was, whatever its size: required, enum, consumes, produces, schemes, tags, scopes, examples, ... *)
+Theorem C01_simple_field_values_survive : forall t, simple_ty t -> forall j, nf_at t j -> norm gen_env false j t = ROk j.
+Proof. exact simple_nf_id_gen. Qed.
+Print Assumptions C01_simple_field_values_survive.
+
+Example C01_simple_field_example :
+  nf_at (TMap (TSlice TStr)) (JObj [("a", JArr [JStr "x"; JStr ""]); ("b", JArr [])]) /\ simple_ty (TMap (TSlice TStr)).
+Proof.
+  split; [|repeat constructor]. cbn [nf_at]. eexists. split; [reflexivity|]. split; [repeat constructor|].
+  repeat constructor; cbn [snd nf_at]; eexists; (split; [reflexivity|repeat constructor; eexists; reflexivity]).
 Qed.
